@@ -19,7 +19,7 @@ from mc.explore import words
 PROPERTY = "C64"
 LEVEL = "model_checking"
 TECHNIQUE = "explicit-state exploration of dataset write/open/read/copy/set/delete histories on temporary HDF5 files against a nested-dict reference model, plus exhaustive per-type round trips"
-LEVEL_TEXT = ("Every enabled history of length <=3 (thorough 4) over 15 (thorough 19) events on one in-memory dataset and up to two HDF5 files is executed on the "
+LEVEL_TEXT = ("Every enabled history of length <=3 (thorough 4; 4 extra events up to length 3) over 15 events from two initial worlds on one in-memory dataset and up to two HDF5 files is executed on the "
               "real Dataset API and compared (memory and every file, type-aware) with a plain nested-dict model; additionally each of ~150 value specs "
               "(all supported operator classes, arrays of 5 dtypes x 4 shapes, 14 sparse classes, containers of nesting <=2, molecules, pytrees, nested "
               "datasets) is round-tripped through 7 routes.")
@@ -492,11 +492,14 @@ def run(ctx):
         depth = 3 if ctx.quick else 4
         events = EVENTS_QUICK if ctx.quick else EVENTS_QUICK + EVENTS_MORE
         for world in ("empty", "seeded"):
-            ws = enabled_words(events, depth, world)
+            ws = enabled_words(EVENTS_QUICK, depth, world)
+            if not ctx.quick:  # the four extra events (second file, new dataset, array value) up to depth 3
+                have = {tuple(w) for w in ws}
+                ws += [w for w in enabled_words(events, 3, world) if tuple(w) not in have]
             n_hist, n_ev = n_hist + len(ws), n_ev + sum(len(w) for w in ws)
             ctx.enumerate([{"fam": "hist", "world": world, "hist": w} for w in ws], axis=f"histories:{world}")
         ctx.coverage["alphabet"] = {"events": events, "history_values": HV, "initial_worlds": {"empty": "A = Dataset()", "seeded": "A = Dataset(x=1); file f1 = {x: [1, (2.5, 'a')], y: 's'}"}}
-        ctx.coverage["bound"] = {"depth": depth, "files": 2}
+        ctx.coverage["bound"] = {"depth": depth, "depth_with_extra_events": 3, "files": 2}
     ctx.coverage.update({"states": max(1, n_hist), "transitions": max(1, n_ev), "traces_validated_against_impl": max(1, n_hist),
                          "roundtrip_cases": n_rt,
                          "explanation": "states = enabled histories replayed on a fresh dataset + temp dir (model carried along, memory and files compared at the end); transitions = events executed"})
